@@ -105,4 +105,14 @@ static_assert(Size(kT3) == 16, "W:size.table");
 static_assert(Ser<16>(kT3) == Bytes<16>{{0xb5, 0x81, 0x34, 0x12, 0x02, 0x05, 0x05, 0x86, 0x90, 0xee, 0xfe, 0xff, 0x09, 0x02, 0x80, 0xc8}}, "W:table.layout");
 static_assert(Ser<5>(T3{}) == Bytes<5>{{0xb5, 0x81, 0x34, 0x12, 0x00}}, "W:table.all_empty");
 
+// a table declared by name carries its 64-bit hash in the U64 class: all eight bytes, little-endian
+struct TN { nop::Entry<std::uint8_t, 1> a; NOP_TABLE_NS("w.NamedTable", TN, a); };
+constexpr Bytes<11> ExpectedNamed(std::uint64_t h) {
+  return Bytes<11>{{0xb5, 0x83, static_cast<std::uint8_t>(h), static_cast<std::uint8_t>(h >> 8), static_cast<std::uint8_t>(h >> 16),
+                    static_cast<std::uint8_t>(h >> 24), static_cast<std::uint8_t>(h >> 32), static_cast<std::uint8_t>(h >> 40),
+                    static_cast<std::uint8_t>(h >> 48), static_cast<std::uint8_t>(h >> 56), 0x00}};
+}
+static_assert(nop::EntryListTraits<TN>::EntryList::Hash > 0xffffffffull, "W:table.named_hash_is_64bit");
+static_assert(Ser<11>(TN{}) == ExpectedNamed(nop::EntryListTraits<TN>::EntryList::Hash), "W:table.named_hash_bytes");
+
 }  // namespace w
